@@ -525,4 +525,93 @@ def beam_list(repo: Repo) -> RuleRun:
 
 beam_list.rule_id = "C07.BEAM-LIST"
 
-RULES = [kind_registry, dedup, direction, reversal, face_edge_slots, curve_direction, edge_slots, length_direction, arc_side, validity_tolerance, own_edge_data, no_memo, reflex_midpoint, arguments_untouched, beam_list]
+# --------------------------------------------------------------------------------------------
+def shared_curve(repo: Repo) -> RuleRun:
+    """'... the edge length used for grading is that of the curve the user described': an edge shared by two blocks is drawn
+    once, and BOTH blocks grade their wire on it. The edge list hands an existing edge to a block added later; a block added
+    EARLIER than the one that defines the curve only learns about it when the blocks are linked as neighbours. Abstract run of
+    BlockList.add (real update_neighbours / Block.add_neighbour / Axis.add_neighbour / Wire.add_coincident) for two blocks that
+    share the edge between vertices 1 and 2, curved in one of them only, in both insertion orders and both wire alignments: afterwards
+    both wires carry the curved edge."""
+    r = RuleRun(PROP, "C07.SHARED-CURVE", floor=8, what="after two blocks are linked, both wires on a shared edge carry the curve one of them defines (either insertion order, either alignment)")
+    fn = repo.func("lists.block_list.BlockList.add")
+    block_cls, axis_cls, wire_cls = repo.cls("items.block.Block"), repo.cls("items.wires.axis.Axis"), repo.cls("items.wires.wire.Wire")
+    mgr_cls = repo.cls("items.wires.manager.WirePropagateManager")
+    bl_cls = repo.cls("lists.block_list.BlockList")
+    pairs = [[(a, b) for a in range(8) for b in range(a + 1, 8) if hexa.edge_axis(a, b) == ax] for ax in range(3)]
+    r.require(all(len(p) == 4 for p in pairs), "the hexahedron model does not give four edges per axis")
+
+    def mk_block(name, vertex_of, curved_pair, flip):
+        axes = []
+        wires_by_pair = {}
+        for ax in range(3):
+            wires = []
+            for a, b in pairs[ax]:
+                w = Obj(f"{name}.w{a}{b}", cls=wire_cls)
+                ends = [vertex_of[a], vertex_of[b]]
+                if flip:
+                    ends.reverse()
+                w.set("vertices", ends)
+                w.set("corners", [b, a] if flip else [a, b])
+                w.set("axis", ax)
+                kind = "arc" if {a, b} == set(curved_pair or ()) else "line"
+                w.set("edge", Obj(f"{name}.edge{a}{b}:{kind}", kind=kind, length=Sym(f"{kind}-length")))
+                w.set("coincidents", set())
+                w.set("grading", Obj(f"{name}.g{a}{b}", is_defined=False))
+                wires.append(w)
+                wires_by_pair[(a, b)] = w
+            mgr = Obj(f"{name}.mgr{ax}", cls=mgr_cls)
+            mgr.set("wires", wires)
+            mgr.set("chops", [])
+            axis = Obj(f"{name}.axis{ax}", cls=axis_cls)
+            axis.set("index", ax)
+            axis.set("wires", mgr)
+            axis.set("neighbours", set())
+            axes.append(axis)
+        blk = Obj(name, cls=block_cls)
+        blk.set("axes", axes)
+        blk.set("index", 0)
+        return blk, wires_by_pair
+
+    for curved_in in ("first", "second"):
+        for flip in (False, True):
+            shared = [Obj(f"V{k}", index=k) for k in range(4)]
+            va = {k: Obj(f"A{k}", index=10 + k) for k in range(8)}
+            vb = {k: Obj(f"B{k}", index=20 + k) for k in range(8)}
+            # A's corners 1, 2, 5, 6 are B's corners 0, 3, 4, 7
+            for (ka, kb), v in zip(((1, 0), (2, 3), (5, 4), (6, 7)), shared):
+                va[ka] = v
+                vb[kb] = v
+            a_blk, a_w = mk_block("blockA", va, (1, 2) if curved_in == "first" else None, False)
+            b_blk, b_w = mk_block("blockB", vb, (0, 3) if curved_in == "second" else None, flip)
+            if curved_in == "first":
+                # the edge list hands the existing edge to the block assembled later (EdgeList.add, rule C07.DEDUP)
+                b_w[(0, 3)].set("edge", a_w[(1, 2)].get("edge"))
+            bl = Obj("block_list", cls=bl_cls)
+            bl.set("blocks", [])
+            ev = Evaluator(repo=repo, module=fn.module, max_steps=400000)
+            for blk in (a_blk, b_blk):
+                _run(ev, fn, [bl, blk])
+            wa, wb = a_w[(1, 2)], b_w[(0, 3)]
+            r.require(wb in wa.get("coincidents") and wa in wb.get("coincidents"), "BlockList.add does not link the wires of the shared edge on the model")
+            label = f"curve defined by the {curved_in} block, wires {'anti-' if flip else ''}aligned"
+            ka, kb = wa.get("edge").get("kind"), wb.get("edge").get("kind")
+            r.check(
+                ka == "arc" and kb == "arc" and wa.get("edge") is wb.get("edge"),
+                fn,
+                f"{label}: both wires carry the arc",
+                f"{label}: after both blocks were added, the wire of the first block holds a '{ka}' edge and the wire of the second a '{kb}' edge on the SAME pair of vertices - the block that does not "
+                "define the curve keeps its straight default edge, its wire length is the chord, and its counts and cell sizes are resolved for the chord while the arc is what is drawn",
+                fn.node,
+                key=f"{curved_in}:{'anti' if flip else 'aligned'}",
+            )
+            # nothing else changes: wires that are not shared keep their own edges
+            others_ok = all(w.get("edge")._name.startswith(w._name.split(".")[0] + ".edge") for pr, w in list(a_w.items()) + list(b_w.items()) if w not in (wa, wb))
+            r.check(others_ok, fn, f"{label}: unshared wires keep their edges", f"{label}: a wire that is not shared changed its edge when the blocks were linked", fn.node, key=f"{curved_in}:{'anti' if flip else 'aligned'}:others")
+    return r
+
+
+shared_curve.rule_id = "C07.SHARED-CURVE"
+
+
+RULES = [kind_registry, dedup, direction, reversal, face_edge_slots, curve_direction, edge_slots, length_direction, arc_side, validity_tolerance, own_edge_data, no_memo, reflex_midpoint, arguments_untouched, beam_list, shared_curve]
